@@ -17,6 +17,7 @@ import torch
 import torch.nn.functional as F
 from hypothesis import strategies as st
 
+from vlib import ref
 from vlib.core import EPS32, Facet, Skip, Violation
 from vlib.findings import Known
 
@@ -1798,10 +1799,24 @@ def run_constructors(case):
             return
         data = b.tensor()
         for i, j in enumerate(ids):
-            if b.axes().value != axes_of_entry[i] and torch.equal(data[i], item_data(j, D, shape, dt)):
+            if b.axes().value == axes_of_entry[i]:
+                continue
+            # the entry must hold the item's displacement expressed w.r.t. the result's axes: compare with the
+            # float64 model of the vector map of the item's own grid (unchanged numbers are only right when that
+            # map is the identity, e.g. grid -> cube for an axis with 2 samples)
+            g = pool.grid(j)
+            m = ref.GridModel([int(n) for n in g.size()], g.spacing().double().numpy(), center=g.center().double().numpy(),
+                              direction=g.direction().double().numpy(), align_corners=g.align_corners())
+            if "cube_corners" in (axes_of_entry[i], b.axes().value) and min(int(n) for n in g.size()) < 2:
+                continue  # cube_corners units are undefined along an axis with a single sample
+            M = m.matrix(axes_of_entry[i], b.axes().value)[:D, :D]
+            src = item_data(j, D, shape, dt).double().numpy()
+            expect = np.einsum("ab,b...->a...", M, src)
+            tol = 64 * 2.0 ** -23 * max(1e-30, float(np.abs(M).max()) * float(np.abs(src).max()))
+            if float(np.abs(data[i].double().numpy() - expect).max()) > tol:
                 raise Violation(f"axes_relabelled:{kindname}",
-                                f"entry {i} holds the unchanged vectors of a flow field with axes {axes_of_entry[i]} "
-                                f"but the result says {b.axes().value}")
+                                f"entry {i} does not hold the vectors of its flow field (axes {axes_of_entry[i]}) "
+                                f"expressed w.r.t. the result's axes {b.axes().value}")
 
     labels = [f"what={what}", f"flow={flow}", f"D={D}"] + plan_labels(plan, 6)
     nt = False
